@@ -114,6 +114,11 @@ func c12lCheck(env *c12lEnv, x *xsched.Exec) []vrt.Finding {
 func TestVerifC12RuleListRace(t *testing.T) {
 	r := vrt.Start("C12")
 	c12lDir = t.TempDir()
+	// Refreshes replace their cache files with fsync; a tmpfs directory keeps
+	// that cheap.  The files are real files either way.
+	if d, derr := os.MkdirTemp("/dev/shm", "verif-c12-"); derr == nil {
+		c12lDir = d
+	}
 	http.DefaultTransport = c12lTransport{}
 	var rc c12lCase
 	if r.ReplayCase("rulelist-race", &rc) {
@@ -156,5 +161,8 @@ func TestVerifC12RuleListRace(t *testing.T) {
 		}
 	}
 	r.Finish()
+	if strings.HasPrefix(c12lDir, "/dev/shm/") {
+		_ = os.RemoveAll(c12lDir)
+	}
 	os.Exit(0)
 }
